@@ -23,6 +23,7 @@ from __future__ import annotations
 import json
 import os
 import re
+import subprocess
 import sys
 import time
 
@@ -177,6 +178,8 @@ def gen_cases(tier, g: G.G, exe=None, ext='-'):
         cases += list(G.stream_prefix(g, u2))                         # exhaustive: prefix ops x universe
         cases += list(G.stream_setlike(g, u0))                        # exhaustive: set forms x core^2
         cases += r.sample(list(G.stream_setlike(g, u1[14:50] + r.sample(u2, 14))), 1000)
+        objs_u = [x for x in u2 if x[0] in g.objs]
+        cases += list(G.stream_setlike(g, objs_u))                     # exhaustive: set forms x object types^2
         cases += r.sample(list(G.stream_triples(g)), 700)
         cases += r.sample(list(G.stream_funcs(g, u1[:30], u0[:8])), 1000)
         poly = {'std::array_agg', 'std::array_unpack', 'std::min', 'std::max', 'std::sum', 'std::count',
@@ -578,8 +581,23 @@ def run(tier):
     t0 = time.time()
     # one process first: it (re)builds the std-schema cache of the substrate if the sources changed,
     # so that the parallel workers only load it
-    sig_real = run_impl(['SIGDUMP'], spec, nproc=1)[0]
-    all_impl = run_impl(lines + plines + qlines, spec)
+    try:
+        sig_real = run_impl(['SIGDUMP'], spec, nproc=1)[0]
+        all_impl = run_impl(lines + plines + qlines, spec)
+    except (RuntimeError, subprocess.SubprocessError) as e:
+        # the real code could not even be started on this tree (e.g. the std library no longer
+        # compiles under the modified compiler): that is a failure of the implementation under test
+        msg = str(e)
+        last = [ln for ln in msg.strip().split('\n') if ln.strip()][-1] if msg.strip() else ''
+        rep.violation('the real EdgeQL compiler of this tree cannot bootstrap the std schema / run the driver: '
+                      + last[:300],
+                      {'broken': 'harness/impl/c12_impl.py start-up on ' + lib.REPO, 'error_tail': msg[-3000:],
+                       'how': f'PYTHONPATH={lib.REPO}:/verif/harness /venv/bin/python harness/impl/c12_impl.py '
+                              f'{lib.REPO} <spec> <<< SIGDUMP'}, False)
+        rep.coverage.update({'evaluations': len(lines), 'distinct_nontrivial': 0,
+                             'rule': 'the implementation driver failed at start-up; nothing compared',
+                             'samples': [lines[0][len(ext) + 3:]] if lines else [], 'trusted_base': []})
+        return rep.finish()
     impl_s = time.time() - t0
     impl = all_impl[:len(lines)]
     pimpl = all_impl[len(lines):len(lines) + len(plines)]
